@@ -62,6 +62,9 @@ def run_variant(v: dict, root: str) -> dict:
         if v['expect'] == 'fire':
             good = pr.returncode == 1 and (
                 not v.get('rule') or v['rule'] in rules)
+        elif v['expect'] == 'undecided':
+            # fails closed: the rule says it cannot decide this shape
+            good = pr.returncode == 2 and 'cannot decide' in out
         else:
             good = pr.returncode == 0
         return {**_id(v), 'status': 'pass' if good else 'FAIL',
